@@ -34,12 +34,15 @@ class Spy:
                 dtt = t_next - t_prev
                 e5, e75 = EPS ** 0.5, EPS ** 0.75
                 probes = []
+                def off(r, width):
+                    # as handle_events since fix P33: a fraction of the step, never below the spacing of the floats at the root
+                    return np.sign(dtt) * np.maximum(np.abs(dtt) * width, EPS * np.abs(r))
                 for i, r in enumerate(roots):
                     f = ev_f[i]
                     fields = []
                     for k in (1.0, 2.0, 3.0):
-                        fields += [sgn(f(r - k * dtt * e75)), sgn(f(r + k * dtt * e75))]
-                    probes.append(dict(root=float(r), success=bool(success[i]), gm=sgn(f(r - dtt * e5)), gc=sgn(f(r)), gp=sgn(f(r + dtt * e5)),
+                        fields += [sgn(f(r - k * off(r, e75))), sgn(f(r + k * off(r, e75)))]
+                    probes.append(dict(root=float(r), success=bool(success[i]), gm=sgn(f(r - off(r, e5))), gc=sgn(f(r)), gp=sgn(f(r + off(r, e5))),
                                        fields=fields, direction=int(direction[i]), terminal=bool(is_terminal[i])))
                 active, roots_out, terminate, evs = out
                 spy.steps.append(dict(t_prev=float(t_prev), t_next=float(t_next), probes=probes, active=[int(a) for a in active],
